@@ -70,7 +70,7 @@ def _w_walks_other(args):
         nv = len(G)
         for start in starts:
             R = O.reach(G, start)
-            walks_for(r, k, G, start, R, 3 if quick else 6, 3 if quick else 4, [U.table_latin(nv, 1)])
+            walks_for(r, k, G, start, R, 3 if quick else 4, 3, [U.table_latin(nv, 1)])
             r.ctr['walk_classes'] += 1
     return r
 
@@ -102,7 +102,7 @@ def run(ctx):
     ctx.log('walk decoding G1 done', ctx.res.evals)
     ctx.pmap(_w_walks_other, [(ctx.quick, c) for c in core.chunks_of(coder.other_graphs(ctx.quick), 12)])
     ctx.bounds['decode_walks'] = 'all walks of length <= %d (no table) / <= %d (tables) from every start of every G1 class; <= %d / %d on G3/G4' % (
-        (3, 2, 3, 3) if ctx.quick else (5, 3, 6, 4))
+        (3, 2, 3, 3) if ctx.quick else (5, 3, 4, 3))
     ctx.rule = ('one case = (graph class, start, table, mode, message): the real strand must equal the strand of an independent '
                 'integer-arithmetic reference coder character for character; or one (class, start, table, walk): decode at the '
                 'minimal fitting width and +2 must render the Horner value big-endian (fast mode: the carried bits); states = cases; non-trivial = message with a 1 bit / walk of non-zero value')
